@@ -105,8 +105,8 @@ func C08(r *core.Run) {
 		r.Finish(1)
 	}
 	defer md.Close()
-	kinds := []string{"500", "503-empty-body", "garbage", "reset", "mixed", "404-empty-body"}
-	nScripts := r.Pick(3, 12)
+	kinds := []string{"500", "503-empty-body", "garbage", "reset", "long-outage", "mixed", "404-empty-body"}
+	nScripts := r.Pick(5, 14)
 	var wg sync.WaitGroup
 	for si := 0; si < nScripts; si++ {
 		wg.Add(1)
@@ -150,10 +150,15 @@ func c08Script(r *core.Run, agentBin string, md *fakes.Metadata, si, rep int, ki
 	defer px.Close()
 	px.ListWait = 20 * time.Millisecond
 	script := []bool{}
-	for i := 0; i < 11; i++ {
+	nf := 11
+	if kind == "long-outage" {
+		nf = 14 // past the point where the delay must have reached its ~3 s cap
+	}
+	for i := 0; i < nf; i++ {
 		script = append(script, false)
 	}
 	script = append(script, true, false, false, false, true, false, false, true)
+	resetIdx := nf + 1 // index of the first failure after the first success
 	var mu sync.Mutex
 	var arrivals []time.Time
 	idx := 0
@@ -170,6 +175,9 @@ func c08Script(r *core.Run, agentBin string, md *fakes.Metadata, si, rep int, ki
 			return false // success: default empty list
 		}
 		k := kind
+		if k == "long-outage" {
+			k = "500"
+		}
 		if k == "mixed" {
 			k = []string{"500", "garbage", "reset", "503-empty-body"}[i%4]
 		}
@@ -197,7 +205,7 @@ func c08Script(r *core.Run, agentBin string, md *fakes.Metadata, si, rep int, ki
 		return false, false
 	}
 	defer agent.Kill()
-	deadline := time.Now().Add(40 * time.Second)
+	deadline := time.Now().Add(60 * time.Second)
 	for time.Now().Before(deadline) {
 		mu.Lock()
 		n := len(arrivals)
@@ -230,7 +238,7 @@ func c08Script(r *core.Run, agentBin string, md *fakes.Metadata, si, rep int, ki
 		base := c08Base(uint64(consec - 1))
 		gaps = append(gaps, gap.Microseconds())
 		r.Cases(fmt.Sprintf("blackbox|%s|failure#%d", kind, consec), 1)
-		if i == 12 {
+		if i == resetIdx {
 			// first failure after the first success: reset clause
 			if gap.Nanoseconds() >= c08Base(11)/10*9 {
 				long = true
